@@ -1381,7 +1381,7 @@ pub fn run_c02(ctx: &mut Ctx) {
             seqs.push((f.bytes.len(), ops));
         }
         // exhaustive short sequences on a subset of files
-        if fi % ctx.n(12, 6) == 0 && f.bytes.len() < 2000 {
+        if (fi % ctx.n(12, 6) == 0 || f.source.starts_with("fail-short-data") || f.source.starts_with("fail-bad-filter")) && f.bytes.len() < 2000 {
             for s in &exhaustive {
                 seqs.push((f.bytes.len(), with_ri(s)));
             }
